@@ -4,7 +4,7 @@ skeleton as StepA.lean; see notes/areas/ocache.md) -/
 namespace AnySync.OCache
 
 attribute [local simp] upd State.setThr State.setE State.setI State.goto State.finish State.panic
-  markStarted_pc markStarted_op markStarted_todo Pc.loaderOf Pc.closerOf Pc.holds Entry.inMapOf
+  markStarted_pc markStarted_op markStarted_todo Pc.loaderOf Pc.closerOf Pc.holds Pc.rmRef Entry.inMapOf
 
 @[local simp] theorem loaded_iff (x : IStatus) : x.loaded = true ↔ x = .live ∨ x = .closing ∨ x = .closed := by
   cases x <;> simp [IStatus.loaded]
@@ -52,7 +52,7 @@ theorem markStarted_of_started {s : State} {th : Thread} (h : th.started = true)
 set_option hygiene false in
 /-- facts about the stepping thread from all layers -/
 local macro "thr_facts" : tactic => `(tactic|
-  (obtain ⟨hb1, hb2, hb3, hb4, hb5⟩ := hB.thr t ht
+  (obtain ⟨hb1, hb2, hb3, hb4, hb6, hb5, hb7⟩ := hB.thr t ht
    obtain ⟨hc1, hc2, hc3, hc4, hc5⟩ := hC.thr t ht
    simp only [loaded_iff] at hb2 hb3
    have hst := stale_started hC ht
@@ -66,6 +66,10 @@ local macro "open_step" : tactic => `(tactic|
    have hcl0 := congrArg Pc.closerOf hpc
    have hld0 := congrArg Pc.loaderOf hpc
    have hhold0 := congrArg Pc.holds hpc
+   have hrm0 := congrArg Pc.rmRef hpc
+   generalize hrm : (s.thr t).pc.rmRef = rm at hrm0
+   simp only [Pc.rmRef] at hrm0
+   subst hrm0
    generalize hcl : (s.thr t).pc.closerOf = cl at hcl0
    generalize hld : (s.thr t).pc.loaderOf = ld at hld0
    generalize hhold : (s.thr t).pc.holds = hd at hhold0
@@ -133,6 +137,7 @@ local macro "frameB" r0:term "," i0:term : tactic => `(tactic|
    case hIB0 => intro hr; first | vac | ((try simp at hr); constructor <;> simp <;> grind)
    case hOwn => intro i hi hne hal hent hr0 hvp hm; simp at hal hvp hm ⊢ <;> grind
    case hLoaded => intro hr; first | vac | ((try simp at hr); simp <;> grind)
+   case hValKeep => intro hr hv; first | vac | ((try simp at hr); simp at hv ⊢ <;> grind)
    case hPendKeep => intro hr hp hldr; first | vac | ((try simp at hr); simp at hp hldr ⊢ <;> grind)
    case hTB => constructor <;> simp <;> grind))
 
